@@ -138,6 +138,32 @@ def check_c14(tier: str, seed: int) -> int:
     dfiles = tracecheck.run_drivers(seed, nprog, nsteps, procs=12, outdir=tdir, profile="measure")
     tfail, tstats = tracecheck.validate(dfiles, procs=12)
     viols = [v for v in tfail if "C14" in v["props"]]
+    # (iii) measurement requests on prepared multi-product-space / density-matrix scenarios (scripted cover of PW.tla):
+    #       replayed with forced outcomes for KeyFresh, and executed UNFORCED as twins
+    from . import configs, pool
+    from .check import stratified
+
+    cfg = configs.make_cfg(f"C14_{tier}_cover.cfg", "U2", 1, False, families="Fam_All", ops="All", init="U2_ExInit",
+                           scripts="U2_ScriptsQ", focus="F_Measure", cover=True)
+    rc, out = tlcrun.tlc("MC", cfg, ["-workers", "8"], timeout=2400)
+    if tlcrun.failed(out):
+        raise tlcrun.TLCError("scripted cover generation failed:\n" + out[-1500:])
+    cover = tlcrun.parse_traces(out)
+    cfg2 = configs.make_cfg(f"C14_{tier}_cover2.cfg", "U2", 1, False, families="Fam_All", ops="All", init="U2_ExInit",
+                            scripts="U2_ScriptsReg", focus="F_Measure", cover=True)
+    rc, out = tlcrun.tlc("MC", cfg2, ["-workers", "8"], timeout=2400)
+    cover += tlcrun.parse_traces(out)
+    forced = stratified(cover, 260 if tier == "quick" else 3000, seed)
+    cdir = os.path.join(tdir, "cover")
+    os.makedirs(cdir)
+    res = pool.replay_all(forced, procs=12, trace_dir=cdir)
+    if any(r.get("harness_error") for r in res):
+        raise RuntimeError("cover replay failed: " + [r["harness_error"] for r in res if r.get("harness_error")][0][:500])
+    cfiles = sorted(os.path.join(cdir, f) for f in os.listdir(cdir) if f.endswith(".ndjson"))
+    cfail, cstats = tracecheck.validate(cfiles, procs=12)
+    viols += [v for v in cfail if "C14" in v["props"]]
+    tstats["lines"] += cstats["lines"]
+    unforced = stratified(cover, 96 if tier == "quick" else 1200, seed + 7)
     # twins
     procs = 8
     per = max(1, npairs // procs)
@@ -149,8 +175,17 @@ def check_c14(tier: str, seed: int) -> int:
             raise RuntimeError("twin driver failed:\n" + txt[-2000:])
         return path
 
+    def one_b(k: int) -> str:
+        src = os.path.join(tdir, f"twinbeh{k}.json")
+        json.dump(unforced[k::procs], open(src, "w"))
+        path = os.path.join(tdir, f"twinsb{k}.ndjson")
+        rc, txt = _py("harness.twins", [str(seed * 50 + k), "0", "0", "-", "--behaviours", src, path])
+        if rc != 0:
+            raise RuntimeError("twin behaviour driver failed:\n" + txt[-2000:])
+        return path
+
     with ThreadPoolExecutor(max_workers=procs) as ex:
-        twin_files = list(ex.map(one, range(procs)))
+        twin_files = list(ex.map(one, range(procs))) + list(ex.map(one_b, range(procs)))
     pairs = draws = 0
     samples = []
     for p in twin_files:
